@@ -211,3 +211,16 @@ Theorem code_vep_convert_is_model : forall g t chrom e,
   Py_VEPParser.py_vep_convert g t chrom e = convert true g t chrom e.
 Proof. exact code_vep_convert_is_model_l. Qed.
 Print Assumptions code_vep_convert_is_model.
+
+(* the per-transcript loop of REDItoolsRecord.convert_to_variant_records (try / `except ValueError as e` around
+   get_transcript_index: intron -> next transcript, any other ValueError re-raised; gene coordinate; get_valid_subs;
+   one record per substitution), translated from the source on every run, is Vep.redi_loop in mode 1 (the repaired
+   behaviour, D10): reverting to "swallow and emit" breaks this equality *)
+Theorem code_redi_convert_translated : Py_REDItoolsParser.py_redi_convert_untranslated = false.
+Proof. vm_compute. reflexivity. Qed.
+Print Assumptions code_redi_convert_translated.
+
+Theorem code_redi_convert_is_model : forall th r txs,
+  Py_REDItoolsParser.py_redi_convert th r txs = redi_loop 1 th r txs.
+Proof. exact code_redi_convert_is_model_l. Qed.
+Print Assumptions code_redi_convert_is_model.
